@@ -11,8 +11,10 @@
 -/
 import MantraDex.Model.System
 import MantraDex.Proofs.NumLemmas
+import MantraDex.Proofs.C02Aux
 
 set_option linter.unusedSimpArgs false
+set_option linter.unusedVariables false
 
 namespace MantraDex.C02
 open MantraDex
@@ -22,19 +24,41 @@ theorem cp_mint_formula {self : Addr} {lp : Denom} {d0 d1 x y S shares : Nat} {n
     {msgs : List Msg} (hS : S ≠ 0) (hne : n0 ≠ n1)
     (h : cpShares self lp [⟨n0, d0⟩, ⟨n1, d1⟩] [⟨n0, x⟩, ⟨n1, y⟩] S = .ok (shares, msgs)) :
     shares = min (d0 * S / x) (d1 * S / y) ∧ msgs = [] ∧ x ≠ 0 ∧ y ≠ 0 := by
-  sorry
+  unfold cpShares at h
+  rw [if_neg hS] at h
+  have hne' : (n0 == n1) = false := by simpa using hne
+  simp only [List.mapM_cons, List.mapM_nil, findIdx, beq_self_eq_true, hne', if_true, if_false,
+    Bool.false_eq_true, Option.map, bind_ok, pure_ok, getD?, List.getElem?_cons_zero,
+    List.getElem?_cons_succ, orPanic_ok, mulRatio_ok, Nat.zero_add] at h
+  obtain ⟨l, ⟨s0, ⟨_, rfl, c0, hc0, hx, _, rfl⟩, l1, ⟨s1, ⟨_, rfl, c1, hc1, hy, _, rfl⟩, _, rfl, rfl⟩, rfl⟩,
+    a1, ha1, a2, ha2, hres⟩ := h
+  simp only [List.getElem?_cons_zero, List.getElem?_cons_succ, Except.ok.injEq] at hc0 hc1 ha1 ha2
+  subst hc0 hc1 ha1 ha2
+  simp only [Prod.mk.injEq] at hres
+  exact ⟨hres.1, hres.2, hx, hy⟩
 
 /-- … hence never more than the depositor's proportional contribution on either asset -/
 theorem cp_mint_le_share {d0 d1 x y S shares : Nat} (hx : x ≠ 0) (hy : y ≠ 0)
     (h : shares = min (d0 * S / x) (d1 * S / y)) :
     shares * x ≤ d0 * S ∧ shares * y ≤ d1 * S := by
-  sorry
+  have h0 : shares ≤ d0 * S / x := by omega
+  have h1 : shares ≤ d1 * S / y := by omega
+  exact ⟨(Nat.le_div_iff_mul_le (Nat.pos_of_ne_zero hx)).1 h0,
+         (Nat.le_div_iff_mul_le (Nat.pos_of_ne_zero hy)).1 h1⟩
 
 /-- … and pool value per LP token, (x·y)/S², never decreases through a deposit -/
 theorem cp_value_per_lp_mono {d0 d1 x y S shares : Nat}
     (h0 : shares * x ≤ d0 * S) (h1 : shares * y ≤ d1 * S) :
     x * y * ((S + shares) * (S + shares)) ≤ (x + d0) * (y + d1) * (S * S) := by
-  sorry
+  have key : ∀ {x d : Nat}, shares * x ≤ d * S → (S + shares) * x ≤ (x + d) * S := by
+    intro x d h
+    calc (S + shares) * x = S * x + shares * x := Nat.add_mul ..
+      _ ≤ S * x + d * S := Nat.add_le_add_left h _
+      _ = (x + d) * S := by rw [Nat.add_mul, Nat.mul_comm S x]
+  have := Nat.mul_le_mul (key h0) (key h1)
+  calc x * y * ((S + shares) * (S + shares)) = (S + shares) * x * ((S + shares) * y) := by ac_rfl
+    _ ≤ (x + d0) * S * ((y + d1) * S) := this
+    _ = (x + d0) * (y + d1) * (S * S) := by ac_rfl
 
 /-- first constant-product deposit: user shares + the locked minimum = ⌊√(d0·d1)⌋, and exactly the
     minimum liquidity is minted to the contract itself -/
@@ -44,13 +68,36 @@ theorem cp_first_mint {self : Addr} {lp : Denom} {d0 d1 shares : Nat} {n0 n1 : D
     shares + C.MINIMUM_LIQUIDITY_AMOUNT = Nat.sqrt (d0 * d1) ∧ shares ≠ 0 ∧
     msgs = [.tfMint ⟨lp, C.MINIMUM_LIQUIDITY_AMOUNT⟩ self] ∧
     (shares + C.MINIMUM_LIQUIDITY_AMOUNT) * (shares + C.MINIMUM_LIQUIDITY_AMOUNT) ≤ d0 * d1 := by
-  sorry
+  unfold cpShares at h
+  rw [if_pos rfl] at h
+  simp only [getD?, List.getElem?_cons_zero, List.getElem?_cons_succ, bind_ok, pure_ok] at h
+  obtain ⟨a, ha, a1, ha1, h⟩ := h
+  simp only [Except.ok.injEq] at ha ha1
+  subst ha ha1
+  have hsq := Nat.sqrt_le (d0 * d1)
+  split at h
+  · simp [bind, Except.bind] at h
+  · split at h
+    · simp [bind, Except.bind] at h
+    · next hq =>
+      generalize C.MINIMUM_LIQUIDITY_AMOUNT = M at h hq ⊢
+      simp only [pure_ok, Prod.mk.injEq] at h
+      obtain ⟨h1, h2⟩ := h
+      subst h1 h2
+      have e : isqrt256 (d0 * d1) = Nat.sqrt (d0 * d1) := rfl
+      rw [e] at hq ⊢
+      have : Nat.sqrt (d0 * d1) - M + M = Nat.sqrt (d0 * d1) := by omega
+      rw [this]
+      exact ⟨rfl, hq, rfl, hsq⟩
 
 /-- a withdrawal pays, per asset, at most reserve·burned/supply and more than that minus one -/
 theorem withdraw_bounds {reserve burned supply refund : Nat} (hs : supply ≠ 0)
     (h : refund = reserve * burned / supply) :
     refund * supply ≤ reserve * burned ∧ reserve * burned < (refund + 1) * supply := by
-  sorry
+  subst h
+  constructor
+  · exact Nat.div_mul_le_self _ _
+  · rw [Nat.mul_comm (_ + 1)]; exact Nat.lt_mul_div_succ _ (Nat.pos_of_ne_zero hs)
 
 /-- the refund computed by `withdraw_liquidity` is exactly that floor, for every pool asset -/
 theorem withdraw_refunds_are_floor {s s' : PmState} {env : PmEnv} {sender : Addr} {funds : List Coin}
@@ -62,18 +109,62 @@ theorem withdraw_refunds_are_floor {s s' : PmState} {env : PmEnv} {sender : Addr
         [.bankSend sender ((pool.assets.map fun a =>
             (⟨a.denom, a.amount * amount / env.supply pool.lpDenom⟩ : Coin)).filter (·.amount > 0)),
          .tfBurn ⟨pool.lpDenom, amount⟩] := by
-  sorry
+  unfold withdrawLiquidity at h
+  rw [hp] at h
+  rw [bind_ok] at h
+  obtain ⟨pool', hp', h⟩ := h
+  simp only [Except.ok.injEq] at hp'
+  subst hp'
+  dsimp only at h
+  split at h
+  · cases h
+  rw [bind_ok] at h
+  obtain ⟨amount, hamt, h⟩ := h
+  split at h
+  · cases h
+  rw [bind_ok] at h
+  obtain ⟨ratio, hratio, h⟩ := h
+  split at h
+  · cases h
+  rw [bind_ok] at h
+  obtain ⟨refunds, href, h⟩ := h
+  rw [bind_ok] at h
+  obtain ⟨assets', -, h⟩ := h
+  simp only [pure_ok, Prod.mk.injEq] at h
+  obtain ⟨-, rfl⟩ := h
+  obtain ⟨hfunds, hne⟩ := mustPay_ok hamt
+  simp only [orPanic_ok, decFromRatio_ok] at hratio
+  have hmap := mapM_ok_eq_map _
+    (fun a : Coin => (⟨a.denom, a.amount * amount / env.supply pool.lpDenom⟩ : Coin))
+    (by
+      intro a b hb
+      simp only [bind_ok, mulRatio_ok, pure_ok] at hb
+      obtain ⟨_, ⟨_, _, rfl⟩, rfl⟩ := hb
+      rfl) _ _ href
+  subst hmap
+  exact ⟨amount, hfunds, hne, hratio.1, by simp [Response.ofMsgs]⟩
 
 /-- x·y/S² never decreases through a withdrawal either -/
 theorem withdraw_value_per_lp_mono {x y S b rx ry : Nat} (hb : b ≤ S)
     (hx : rx * S ≤ x * b) (hy : ry * S ≤ y * b) :
     x * y * ((S - b) * (S - b)) ≤ (x - rx) * (y - ry) * (S * S) := by
-  sorry
+  rcases Nat.eq_zero_or_pos S with rfl | hS
+  · have : b = 0 := by omega
+    subst this; simp
+  · have key : ∀ {x rx : Nat}, rx * S ≤ x * b → x * (S - b) ≤ (x - rx) * S := by
+      intro x rx hx
+      have h1 : x * b ≤ x * S := Nat.mul_le_mul_left _ hb
+      rw [Nat.mul_sub, Nat.sub_mul]
+      omega
+    have := Nat.mul_le_mul (key hx) (key hy)
+    calc x * y * ((S - b) * (S - b)) = x * (S - b) * (y * (S - b)) := by ac_rfl
+      _ ≤ (x - rx) * S * ((y - ry) * S) := this
+      _ = (x - rx) * (y - ry) * (S * S) := by ac_rfl
 
 /-- redeemability: an LP amount worth at least one unit of some asset gets a non-zero refund -/
 theorem withdraw_redeemable {reserve burned supply : Nat} (hs : supply ≠ 0)
     (hw : supply ≤ reserve * burned) : 0 < reserve * burned / supply := by
-  sorry
+  exact Nat.div_pos hw (Nat.pos_of_ne_zero hs)
 
 /-- LP tokens are created only by deposits and destroyed only by withdrawals: the only
     pool-manager messages that mint or burn are those of `provide_liquidity` / `withdraw_liquidity` -/
@@ -82,7 +173,41 @@ theorem lp_only_minted_by_deposit_burned_by_withdraw {s s' : PmState} {env : PmE
     (h : pmExecute s env sender funds m = .ok (s', r)) :
     (∀ sm ∈ r.msgs, ∀ c to, sm.msg = .tfMint c to → ∃ ls ss rc pid u l, m = .provideLiquidity ls ss rc pid u l) ∧
     (∀ sm ∈ r.msgs, ∀ c, sm.msg = .tfBurn c → ∃ pid, m = .withdrawLiquidity pid) := by
-  sorry
+  have both : (∀ sm ∈ r.msgs, noMB sm.msg = true) →
+      (∀ sm ∈ r.msgs, ∀ c to, sm.msg = .tfMint c to → ∃ ls ss rc pid u l, m = .provideLiquidity ls ss rc pid u l) ∧
+      (∀ sm ∈ r.msgs, ∀ c, sm.msg = .tfBurn c → ∃ pid, m = .withdrawLiquidity pid) := by
+    intro hh
+    exact ⟨fun sm hsm c to e => (noMB_absurd_mint (hh sm hsm) e).elim,
+           fun sm hsm c e => (noMB_absurd_burn (hh sm hsm) e).elim⟩
+  cases m with
+  | createPool denoms decimals fees ptype id => exact both (create_msgs h)
+  | provideLiquidity ls ss rc pid u l =>
+    refine ⟨fun _ _ _ _ _ => ⟨_, _, _, _, _, _, rfl⟩, fun sm hsm c e => ?_⟩
+    have := provide_msgs h sm hsm
+    rw [e] at this
+    simp [noBurn] at this
+  | swap ask b ms rc pid => exact both (swap_msgs h)
+  | withdrawLiquidity pid =>
+    refine ⟨fun sm hsm c to e => ?_, fun _ _ _ _ => ⟨_, rfl⟩⟩
+    have := withdraw_msgs h sm hsm
+    rw [e] at this
+    simp [noMint] at this
+  | execSwapOps ops mr rc ms => exact both (execSwapOps_msgs h)
+  | updateConfig fc fm cf t =>
+    apply both
+    unfold pmExecute at h
+    rw [bind_ok] at h
+    obtain ⟨_, _, h⟩ := h
+    rw [updateConfig_msgs h]
+    intro sm hsm; cases hsm
+  | updateOwnership a =>
+    apply both
+    unfold pmExecute at h
+    do_norm
+    repeat' peel_step
+    simp only [Prod.mk.injEq] at hfin
+    obtain ⟨-, rfl⟩ := hfin
+    intro sm hsm; cases hsm
 
 /-- stableswap: the mint of a later deposit is ⌊supply·(D1adj − D0)/D0⌋ with the code's own D values -/
 theorem ss_later_mint_shape {amp : Nat} {old new : List Coin} {supply : Nat} {p : PoolInfo} {mint : Nat}
@@ -90,6 +215,57 @@ theorem ss_later_mint_shape {amp : Nat} {old new : List Coin} {supply : Nat} {p 
     (h : computeLpMintStable amp old new supply p = .ok mint) :
     mint = 0 ∨ ∃ d0 dadj, computeDWithPoolInfo amp old p = .ok (some d0) ∧ d0 ≠ 0 ∧ d0 ≤ dadj ∧
       mint = supply * (dadj - d0) / d0 := by
-  sorry
+  unfold computeLpMintStable at h
+  rw [bind_ok] at h
+  obtain ⟨total, -, h⟩ := h
+  split at h
+  · simp only [pure_ok] at h; exact Or.inl h
+  extract_lets n jp0 at h
+  rw [bind_ok] at h
+  obtain ⟨l0, hl0, h⟩ := h
+  split at h
+  case h_2 => cases h
+  rename_i d0
+  replace h : jp0 d0 = .ok mint := h
+  simp -zeta only [jp0] at h
+  clear jp0
+  rw [bind_ok] at h
+  obtain ⟨l1, hl1, h⟩ := h
+  extract_lets jpD jpA jp1 at h
+  have keyD : ∀ a, jpD a = .ok mint → mint = 0 ∨ ∃ d0 dadj, computeDWithPoolInfo amp old p = .ok (some d0) ∧ d0 ≠ 0 ∧ d0 ≤ dadj ∧
+      mint = supply * (dadj - d0) / d0 := by
+    intro a ha
+    simp -zeta only [jpD] at ha
+    have hs' : (supply == 0) = false := by simpa using hs
+    rw [if_neg (by simp [hs'])] at ha
+    simp only [bind_ok, ckSub_ok, ckMul_ok, ckDiv_ok, fit_ok] at ha
+    obtain ⟨_, ⟨hle, rfl⟩, _, ⟨_, rfl⟩, _, ⟨hne, rfl⟩, _, rfl⟩ := ha
+    exact Or.inr ⟨d0, a, hl0, hne, hle, rfl⟩
+  clear_value jpD
+  have keyA : ∀ a, jpA a = .ok mint → mint = 0 ∨ ∃ d0 dadj, computeDWithPoolInfo amp old p = .ok (some d0) ∧ d0 ≠ 0 ∧ d0 ≤ dadj ∧
+      mint = supply * (dadj - d0) / d0 := by
+    intro a ha
+    simp -zeta only [jpA] at ha
+    rw [bind_ok] at ha
+    obtain ⟨l, -, ha⟩ := ha
+    split at ha
+    · exact keyD _ ha
+    · cases ha
+  clear_value jpA
+  split at h
+  case h_2 => cases h
+  rename_i d1
+  replace h : jp1 d1 = .ok mint := h
+  simp -zeta only [jp1] at h
+  clear jp1
+  split at h
+  · simp only [pure_ok] at h; exact Or.inl h
+  split at h
+  · exact keyA _ h
+  dsimp only at h
+  repeat (first
+    | exact keyA _ h
+    | (rw [bind_ok] at h; obtain ⟨_, -, h⟩ := h)
+    | (split at h <;> try (cases h)))
 
 end MantraDex.C02
